@@ -215,6 +215,7 @@ def run(ctx):
     ctx.cov["clauses"] = {
         "collinear reduction A5 = A7 = 0": "proved (generated integrand)",
         "zero-diffraction closed form (4/Sigma) exp(-a^2(1+z)^2) e^{i(psi0 + ff z)} apod(z)": "proved_partial (generated closure with the 1/k coefficients set to 0)",
+        "the closed form is the large-waist limit of the real integrand (s^4 integrand_s -> plane-wave value)": "proved (generated integrand)",
         "ff = Delta k_z L/2 with the pump at ws + wi": "proved",
         "sinc integral; ratio to the phase-matched value |sinc|": "proved_partial (zero-diffraction idealisation)",
         "peak value 4/Sigma, with walk-off (4/Sigma) sqrt(pi) erf(x)/(2x)": "proved_partial (zero-diffraction idealisation)",
